@@ -25,7 +25,7 @@ RULE = ("Event count 0..2*dw+3, data width in {4,8,16}, alignment 0-3, a trigger
         "clear, and a multi-chunk pending read. Distinct = canonical JSON.")
 BUDGET = {"quick": (16, 150), "thorough": (16, 4000)}
 ESSENTIAL = ["attach:decoder", "attach:connect", "multi_chunk_masks", "non_pow2_chunks", "event_in_clear_cycle",
-             "pending_write", "enable_write", "pending_multichunk_read", "zero_events", "alignment_padding"]
+             "pending_write", "enable_write", "pending_multichunk_read", "zero_events", "alignment_padding", "events>=64", "chunks>8"]
 ASSUMPTIONS = [
     "mask registers are written completely or not at all (chunk-skipping writes leave unspecified bits)",
     "observation is through the bus port and the outgoing src.i only",
@@ -37,6 +37,8 @@ MODES = ["level", "rise", "fall"]
 def _spec(draw, tier):
     dw = draw(st.sampled_from([4, 8, 8, 16]))
     n = draw(st.one_of(st.integers(0, 2 * dw + 3), st.integers(dw + 1, 2 * dw + 3)))
+    if draw(st.integers(0, 11)) == 0:
+        n = draw(st.sampled_from([63, 64, 65, 66, 70, 72, 8 * dw + 1, 9 * dw]))   # > 64 events / > 8 chunks per mask
     return {"n": n, "dw": dw, "al": draw(st.sampled_from([0, 0, 0, 1, 2, 3])),
             "modes": [draw(st.sampled_from(MODES)) for _ in range(n)],
             "trigger": draw(st.sampled_from(MODES)),
@@ -94,6 +96,8 @@ def check(spec, stats):
     stats.label("multi_chunk_masks", chunks > 1)
     stats.label("non_pow2_chunks", chunks & (chunks - 1) != 0)
     stats.label("zero_events", n == 0)
+    stats.label("events>=64", n >= 64)
+    stats.label("chunks>8", chunks > 8)
     stats.label("alignment_padding", regs[0].end - regs[0].start > chunks)
     stim = dict(spec["stim"])
     stim["txns"] = [dict(x, len="full" if x["len"] == "skip" else x["len"]) for x in stim["txns"]]
